@@ -281,6 +281,13 @@ func runC07(c *Ctx) {
 				}
 				return false
 			}
+			headZeroEdge := func(iff *ssa.If, i int) bool {
+				cm, ok := edgeCmp(iff, i)
+				if !ok || !m.isLoad(cm.X, m.headF) || !isConstInt(cm.Y, 0) {
+					return false
+				}
+				return cm.Op == token.LEQ || cm.Op == token.EQL
+			}
 			// a helper method on the same queue that rotates and resets on every path counts as the event
 			rotatingHelper := func(in2 ssa.Instruction) bool {
 				call, ok := in2.(*ssa.Call)
@@ -291,17 +298,11 @@ func runC07(c *Ctx) {
 				if h == nil || h.Blocks == nil || h == fn {
 					return false
 				}
-				okH, _ := mustPassToExit(P, firstInstr(h), isRotateReset)
+				// (a way out of the helper on which head is known to be 0 already needs no rotation)
+				okH, _ := mustPassToExitE(P, firstInstr(h), isRotateReset, headZeroEdge)
 				return okH || isRotateReset(firstInstr(h))
 			}
 			isResetEvent := func(in2 ssa.Instruction) bool { return isRotateReset(in2) || rotatingHelper(in2) }
-			headZeroEdge := func(iff *ssa.If, i int) bool {
-				cm, ok := edgeCmp(iff, i)
-				if !ok || !m.isLoad(cm.X, m.headF) || !isConstInt(cm.Y, 0) {
-					return false
-				}
-				return cm.Op == token.LEQ || cm.Op == token.EQL
-			}
 			w := walkFromE(firstInstr(fn), true, isResetEvent, headZeroEdge)
 			reached, wit := false, ""
 			for _, in2 := range w.order {
